@@ -23,7 +23,7 @@ func init() {
 			"(f) the node is offered the worker's whole payload, directly or as the sub-slices [offset:offset+entries] of Scatter's own callback parameters; (g) the semaphore is released by defer after a successful Acquire; " +
 			"(h) classification helpers return nil only on arms guarded by a server-type test (the tolerated (server, message) pairs are extracted and reported, not frozen); " +
 			"(i) util.Scatter starts `workers` goroutines, its channels have capacity `workers` and its collector performs `workers` receives without early exit. " +
-			"Added with the third seeding round: (f, extended) once the semaphore is held every path of a worker calls its node; (i, extended) Scatter's worker count is ceil(inputLen/extent). Added with the fourth seeding round: (k) no errgroup context in the submitter; (l) case-folded texts are searched for constants of the same case. NOT decided: lost-wakeup timing of the condition variable, extent arithmetic of Scatter, behaviour when concurrency < nodes, wall-clock bounds.",
+			"Added with the third seeding round: (f, extended) once the semaphore is held every path of a worker calls its node; (i, extended) Scatter's worker count is ceil(inputLen/extent). Added with the fourth seeding round: (k) no errgroup context in the submitter; (l) case-folded texts are searched for constants of the same case. Added with the fifth seeding round: (m) the fields of the structure that decodes a node's indexed-failure answer have the JSON types the node sends. NOT decided: lost-wakeup timing of the condition variable, extent arithmetic of Scatter, behaviour when concurrency < nodes, wall-clock bounds.",
 		Technique: "template conformance of sibling implementations on SSA (roles bound by types and call resolution), AST loop-exit analysis, guard/edge-deletion queries, error-nilness analysis of classification helpers, provenance of goroutine arguments",
 		Rule:      "obligations (a)-(g) per submitter entry/worker pair, (h) per classification helper, (i) for Scatter",
 	})
@@ -625,6 +625,43 @@ func runC08(p *core.Prog, r *core.Report, tier string) {
 		})
 	}
 	r.Floor("C08.l constant needles in the classification helpers", nNeedle, 4)
+
+	// ---- (m) the error bodies of the beacon nodes are decoded into the types the nodes send: Teku reports the index
+	// of a failed item as a JSON string, Lighthouse as a number; with the wrong Go type the whole body fails to decode
+	// and the tolerated rejection is never recognised ----
+	{
+		want := map[string]types.BasicKind{"teku": types.String, "lighthouse": types.Int}
+		nWire := 0
+		if pk := p.ByPath[core.ModulePath+"/services/submitter/multinode"]; pk != nil && pk.Types != nil {
+			sc := pk.Types.Scope()
+			for _, name := range sc.Names() {
+				tn, ok := sc.Lookup(name).(*types.TypeName)
+				if !ok {
+					continue
+				}
+				st, ok := tn.Type().Underlying().(*types.Struct)
+				if !ok {
+					continue
+				}
+				lower := strings.ToLower(name)
+				for client, kind := range want {
+					if !(strings.HasPrefix(lower, client) || client == "lighthouse" && strings.HasPrefix(lower, "lh")) || !strings.Contains(lower, "failure") {
+						continue
+					}
+					for i := 0; i < st.NumFields(); i++ {
+						if !strings.Contains(st.Tag(i), "json:\"index\"") {
+							continue
+						}
+						nWire++
+						b, isBasic := st.Field(i).Type().Underlying().(*types.Basic)
+						r.Check(isBasic && b.Kind() == kind, "C08.m", "wire-type|"+name+"."+st.Field(i).Name(), p.Pos(st.Field(i).Pos()), "the failure index has the JSON type the client sends",
+							"the failure index of "+name+" is declared as "+st.Field(i).Type().String()+", but "+client+" sends it as a JSON "+map[types.BasicKind]string{types.String: "string", types.Int: "number"}[kind]+": the error body no longer decodes, so this client's tolerated rejections count as failures")
+					}
+				}
+			}
+		}
+		r.Floor("C08.m failure index fields of the classified error bodies", nWire, 2)
+	}
 
 	// ---- (k) one failing node does not abort the submissions to the others ----
 	checkNoFailFastContext(p, r, "C08.k", []string{"services/submitter/"}, "a node that rejects the submission aborts the deliveries still in flight to the other nodes")
